@@ -32,6 +32,14 @@ type chainFam struct {
 	files  []*tfile
 	halted bool
 	types  []string
+	// ledger mode (spec/Ledger.tla): project class balances and obligations after every step
+	ledger  bool
+	lgAddr  map[string]string
+	lgUsers map[string]bool
+	lgGauge map[string]bool
+	lgBase  *lgSnap
+	lgBig   bool
+	nreg    int
 }
 
 func init() { families["chain"] = func() Family { return &chainFam{} } }
@@ -41,6 +49,7 @@ func (f *chainFam) Reseed(r *rand.Rand) { f.rng = r }
 func (f *chainFam) Setup(cfg M, rng *rand.Rand) {
 	f.rng = rng
 	f.labels = []string{"a", "b", "c", "p1", "p2", "p3", "p4"}
+	f.ledger = getb(cfg, "ledger")
 }
 
 func smallParams(gs app.GenesisState, a *app.JackalApp) {
@@ -115,10 +124,20 @@ func (f *chainFam) Reset() M {
 		}
 		f.script = w
 	}
-	return M{}
+	if f.ledger {
+		f.lgInit()
+		f.lgBig = false
+		f.lgBase = f.lgTake()
+	}
+	return f.Project()
 }
 
-func (f *chainFam) Project() M { return M{} }
+func (f *chainFam) Project() M {
+	if !f.ledger {
+		return M{}
+	}
+	return f.lgProject(f.lgTake())
+}
 
 func evDigest(evs []abci.Event) string {
 	h := sha256.New()
@@ -172,7 +191,60 @@ func (f *chainFam) deliver(m sdk.Msg) M {
 	if len(ms) > 300 {
 		ms = ms[:300]
 	}
-	return M{"a": "tx", "t": sdk.MsgTypeURL(m), "code": int64(r.Code), "cs": r.Codespace, "gas": r.GasUsed, "ev": evDigest(r.Events), "ok": r.Code == 0, "x": M{"msg": ms}}
+	ev := M{"a": "tx", "t": sdk.MsgTypeURL(m), "code": int64(r.Code), "cs": r.Codespace, "gas": r.GasUsed, "ev": evDigest(r.Events), "ok": r.Code == 0, "x": M{"msg": ms}}
+	if f.ledger {
+		ev["den"], ev["amt"] = coinOfMsg(m)
+	}
+	return ev
+}
+
+// flow builds a plausible token-moving message of the custom modules (ledger mode): bids, cancellations,
+// acceptances, purchases and registrations of names, provider collateral in and out, plan purchases with and
+// without referral, files paid one by one.
+func (f *chainFam) flow() sdk.Msg {
+	r := f.rng
+	pick := func(xs ...string) string { return xs[r.Intn(len(xs))] }
+	who := func(xs ...string) string { return f.c.Acct(pick(xs...)).S() }
+	names := []string{"alpha.jkl", "beta.jkl", "BETA.jkl", "Alpha.jkl", "gamma.jkl"}
+	coin := func() sdk.Coin {
+		return sdk.NewInt64Coin(pick("ujkl", "ujkl", "uusd"), []int64{1, 55, 1000, 12345, 400_000}[r.Intn(5)])
+	}
+	switch r.Intn(12) {
+	case 0, 1:
+		return &rtypes.MsgBid{Creator: who("a", "b", "c", "p1"), Name: pick(names...), Bid: coin()}
+	case 2:
+		return &rtypes.MsgCancelBid{Creator: who("a", "b", "c", "p1"), Name: pick(names...)}
+	case 3:
+		return &rtypes.MsgAcceptBid{Creator: who("a", "b", "c"), Name: pick(names...), From: who("a", "b", "c", "p1")}
+	case 4:
+		if r.Intn(2) == 0 {
+			return &rtypes.MsgList{Creator: who("a", "b", "c"), Name: pick(names...), Price: coin()}
+		}
+		return &rtypes.MsgBuy{Creator: who("a", "b", "c", "p1"), Name: pick(names...)}
+	case 5:
+		f.nreg++
+		n := []string{"gamma.jkl", "d.jkl", "ab.ibc", "wxyz.jkl", "x" + fmt.Sprint(f.nreg) + ".jkl"}[r.Intn(5)]
+		return &rtypes.MsgRegisterName{Creator: who("a", "b", "c"), Name: n, Years: int64(1 + r.Intn(2)), Data: "{}"}
+	case 6:
+		p := pick("p1", "p2", "p3", "p4", "c")
+		return &stypes.MsgInitProvider{Creator: f.c.Acct(p).S(), Ip: domURL(p, "d"+fmt.Sprint(1+r.Intn(3))), Keybase: "kb", TotalSpace: 1_000_000}
+	case 7:
+		return &stypes.MsgShutdownProvider{Creator: who("p1", "p2", "p3", "p4", "c")}
+	case 8, 9:
+		m := &stypes.MsgBuyStorage{Creator: who("a", "b", "c"), ForAddress: who("a", "b", "c"), DurationDays: []int64{30, 60, 366, 720}[r.Intn(4)],
+			Bytes: []int64{1_000_000_000, 3_000_000_000, 6_000_000_000}[r.Intn(3)], PaymentDenom: "ujkl"}
+		if r.Intn(2) == 0 {
+			m.Referral = pick(f.c.Acct("a").S(), f.c.Acct("p1").S(), "alpha.jkl", "beta.jkl")
+		}
+		return m
+	default:
+		t := f.files[r.Intn(len(f.files))]
+		m := &stypes.MsgPostFile{Creator: who("c", "p1", "a"), Merkle: t.root, FileSize: int64(len(t.data)), MaxProofs: 3, Note: "{}"}
+		if r.Intn(2) == 0 {
+			m.Expires = f.c.H + int64([]int{200, 14400, 3 * 14400}[r.Intn(3)])
+		}
+		return m
+	}
 }
 
 func (f *chainFam) Apply(st M) M {
@@ -200,6 +272,8 @@ func (f *chainFam) Apply(st M) M {
 		}
 		fillMsg(m, advPicker(f.rng, addrs, roots))
 		return f.deliver(m)
+	case "flow":
+		return f.deliver(f.flow())
 	case "advfile": // boundary sizes / replication on a file that provers can then join
 		a := f.c.Acct([]string{"a", "b", "c"}[f.rng.Intn(3)])
 		t := f.files[f.rng.Intn(len(f.files))]
@@ -290,6 +364,21 @@ func (f *chainFam) Apply(st M) M {
 func (f *chainFam) Random(rng *rand.Rand) M {
 	if len(f.script) > 0 && rng.Intn(5) != 0 {
 		return M{"a": "script"}
+	}
+	if f.ledger {
+		switch r := rng.Intn(100); {
+		case r < 12:
+			return M{"a": "adv"}
+		case r < 16:
+			return M{"a": "advfile"}
+		case r < 22:
+			return M{"a": "form"}
+		case r < 37:
+			return M{"a": "prove"}
+		case r < 80:
+			return M{"a": "flow"}
+		}
+		return M{"a": "block"}
 	}
 	switch r := rng.Intn(100); {
 	case r < 45:
